@@ -63,6 +63,36 @@ func jobsFor(prop, tier string) []Job {
 				mk("c02-n4-1cycle-drain", params("N", 4, "CYCLES", 1, "KEYS", 3, "DRAIN", 1, "L0MAX", 2), false),
 				mk("c02-n3-2cycles-ops2", params("N", 3, "CYCLES", 2, "KEYS", 2, "OPS2", 1, "K0", 2), false))
 		}
+	case "C03", "C04", "C14":
+		mk := func(name string, p map[string]int, crashes int, tears bool, eager bool, sched int) Job {
+			return Job{Name: name, Pkg: "", Fn: "VH_C03_P1", Fn2: "VH_C03_P2", Inits: true, Samples: 6, Params: p, MaxCrashes: crashes, Tears: tears, Eager: eager, Sched: sched > 0, MaxDev: sched,
+				Bounds:  map[string]any{"workload": p["W"], "crash_points": "before every mutating file-system operation (create, truncate, write, fsync, remove) of every goroutine", "crashes_per_run": crashes, "torn_tails": map[bool]string{true: "every file with unsynced bytes is cut at every length between its synced and written length", false: "process-crash model: every completed operation persists"}[tears], "preemption_bound": sched, "params": p},
+				Assumes: []string{"concrete keys and values (every file byte concrete, real s2 and thrift encodings)", aFS, aClock, "directory operations are ordered and durable", "native confirmation runs the real recovery code on the engine's crash image"},
+				Outside: []string{"I/O errors, partial (non-prefix) writes, reordering of writes to different files beyond the fsync model", "workloads other than the listed ones"}}
+		}
+		tears := prop == "C14"
+		defer func() {
+			// the three properties share the harness; each counts its own assertions
+			for i := range js {
+				switch prop {
+				case "C03", "C14":
+					js[i].OnlyAsserts = []string{"C03."}
+				case "C04":
+					js[i].OnlyAsserts = []string{"C04."}
+					js[i].IgnorePanics = true
+				}
+			}
+		}()
+		js = []Job{
+			mk("crash-w0", params("W", 0), 1, tears, false, 0),
+			mk("crash-w1-multikey", params("W", 1, "MEMTHR", 60), 1, tears, false, 0),
+		}
+		if thorough {
+			js = append(js, mk("crash-w2", params("W", 2), 1, tears, false, 0),
+				mk("crash-w0-2crashes", params("W", 0), 2, false, false, 0),
+				mk("crash-w0-nodrain-eager", params("W", 0, "DRAIN", 0, "IB", 0), 1, tears, true, 0),
+				mk("crash-w1-sched1", params("W", 1, "MEMTHR", 60, "DRAIN", 0), 1, tears, false, 1))
+		}
 	case "C09":
 		mk := func(name string, p map[string]int) Job {
 			return Job{Name: name, Pkg: "", Fn: "VH_C09", Inits: true, FilterSummary: true, Samples: 4, Params: p,
